@@ -3,6 +3,7 @@ package conc
 import (
 	"bufio"
 	"fmt"
+	"runtime"
 	"strconv"
 	"strings"
 	"testing"
@@ -32,13 +33,13 @@ var families = map[string]family{
 		idPool: []string{"1", "2", `"a"`, "0", "-1", "1.5", "1e3", `""`, `"\u0031"`}, Ks: []int{1, 3}, push: []bool{false, true}, builtin: []bool{true, false}, steps: 20},
 	"c03": {name: "c03", wFeedCall: 5, wFeedNote: 8, wFeedBatch: 6, wFeedInvalid: 1, wGate: 12, wCancel: 1, wPush: 1, wBuiltin: 1,
 		idPool: []string{"1", "2", "3", "4", "5", "6"}, Ks: []int{1, 2, 4, 8}, push: []bool{false, true}, builtin: []bool{true}, steps: 20},
-	"c06": {name: "c06", wFeedCall: 4, wFeedNote: 2, wFeedBatch: 10, wGate: 12, wCancel: 4, wBuiltin: 2,
+	"c06": {name: "c06", wFeedCall: 4, wFeedNote: 2, wFeedBatch: 10, wGate: 12, wCancel: 4, wBuiltin: 2, wPush: 2,
 		idPool: []string{"1", "2", "3", "4", "5", "6", "7", "8"}, Ks: []int{1, 2, 3, 5}, push: []bool{false, true}, builtin: []bool{true}, steps: 20},
-	"c07": {name: "c07", wFeedCall: 10, wFeedNote: 1, wFeedBatch: 5, wFeedInvalid: 2, wGate: 10, wCancel: 6, wBuiltin: 1, wSendFault: 2,
+	"c07": {name: "c07", wFeedCall: 10, wFeedNote: 1, wFeedBatch: 5, wFeedInvalid: 2, wGate: 10, wCancel: 6, wBuiltin: 1, wSendFault: 2, wRestart: 2,
 		idPool: []string{"1", "2", `"a"`, `"1"`, `"2"`}, Ks: []int{1, 2, 4}, push: []bool{false}, builtin: []bool{true, false}, steps: 22},
 	"c08": {name: "c08", wFeedCall: 6, wFeedNote: 5, wFeedBatch: 5, wFeedInvalid: 3, wFeedRaw: 2, wFeedReply: 1, wGate: 8, wCancel: 1, wStop: 3, wPush: 2, wFeedErr: 3, wRestart: 2, wSendFault: 2, wWait: 2,
 		idPool: []string{"1", "2", "3", "4"}, Ks: []int{1, 2, 4}, push: []bool{false, true}, builtin: []bool{true}, steps: 22},
-	"c09": {name: "c09", wFeedCall: 3, wFeedNote: 3, wFeedBatch: 2, wFeedReply: 10, wGate: 6, wStop: 1, wPush: 10, wCbCtx: 5, wFeedInvalid: 1,
+	"c09": {name: "c09", wFeedCall: 3, wFeedNote: 3, wFeedBatch: 2, wFeedReply: 10, wGate: 6, wStop: 1, wPush: 10, wCbCtx: 5, wFeedInvalid: 1, wRestart: 2,
 		idPool: []string{"1", "2", "3"}, Ks: []int{2, 4}, push: []bool{true, true, true, false}, builtin: []bool{true}, steps: 24},
 	"c10": {name: "c10", wFeedCall: 6, wFeedNote: 3, wFeedBatch: 6, wFeedInvalid: 2, wFeedRaw: 2, wFeedReply: 3, wGate: 10, wCancel: 2, wStop: 2, wPush: 5, wCbCtx: 2, wFeedErr: 2, wRestart: 1, wSendFault: 1, wWait: 1,
 		idPool: []string{"1", "2", "3", "4"}, Ks: []int{1, 3}, push: []bool{true, false}, builtin: []bool{true}, steps: 24},
@@ -365,6 +366,15 @@ func (s *scen) step() {
 	if r.cfg.basectx && !r.baseEnded {
 		acts = append(acts, act{2, func() { r.baseCtxEnd() }})
 	}
+	// the clock advances (11 s of the bubble's fake time): nothing in the server may depend on elapsed time
+	acts = append(acts, act{1, func() { r.tick() }})
+	if len(started) > 0 && f.wPush > 0 {
+		// a handler (call or notification) starts a callback under a context detached from its own cancellation
+		// (context.WithoutCancel) in the background and carries on: the callback outlives the handler
+		acts = append(acts, act{f.wPush, func() {
+			r.handlerPushDetached(pick(g, started), pick(g, pushCallNames), pick(g, []string{"", `{"d":1}`}))
+		}})
+	}
 	if waiting < 2 {
 		acts = append(acts, act{f.wWait, func() { r.callWait() }})
 	}
@@ -445,6 +455,11 @@ func (s *scen) epilogue(restart bool) {
 			r.gate(p, gateMsg{res: `"again"`})
 			r.drain(s.pickParked)
 		}
+		if r.cfg.push {
+			// callback ids keep counting across restarts
+			r.callPush(true, "pc", "")
+			r.drain(s.pickParked)
+		}
 		r.callStop()
 		r.drain(s.pickParked)
 		r.feedErr("eof")
@@ -463,6 +478,8 @@ func scriptFor(fam string, idx int) func(*scen) {
 		return scriptNotesOnlyBatch
 	case (fam == "c09" || fam == "c03") && idx%40 == 11:
 		return scriptBurstBehindCallback
+	case fam == "c06" && idx%30 == 13:
+		return scriptManyHandlers
 	}
 	return nil
 }
@@ -551,6 +568,29 @@ func scriptBurstBehindCallback(s *scen) {
 	r.drain(s.pickParked)
 }
 
+// scriptManyHandlers: a concurrency limit above the number of CPUs, saturated by one batch of calls: exactly K
+// handlers execute, the rest wait, and each return lets one more in.
+func scriptManyHandlers(s *scen) {
+	r := s.r
+	n := r.cfg.K + 4
+	var ms []member
+	for i := 0; i < n; i++ {
+		ms = append(ms, mkCall(strconv.Itoa(100+i), "g", s.newTok()))
+	}
+	r.feedMsgs(true, ms, false)
+	r.drain(s.pickParked)
+	for i := 0; i < 6; i++ {
+		r.mu.Lock()
+		started := append([]string(nil), r.started...)
+		r.mu.Unlock()
+		if len(started) == 0 {
+			break
+		}
+		r.gate(started[0], gateMsg{res: "true"})
+		r.drain(s.pickParked)
+	}
+}
+
 // runServerScenario runs one scenario in its own synctest bubble and returns its log.
 func runServerScenario(t *testing.T, fam string, seed uint64, idx int, out *bufio.Writer) {
 	f, ok := families[fam]
@@ -566,6 +606,9 @@ func runServerScenario(t *testing.T, fam string, seed uint64, idx int, out *bufi
 		cfg.push = true
 		if cfg.K < 2 {
 			cfg.K = 3
+		}
+		if fam == "c06" {
+			cfg.K = runtime.NumCPU() + 3 // a limit above the number of CPUs is a limit like any other
 		}
 	}
 	policy := "random"
